@@ -210,11 +210,31 @@ func (consumersSuite) Run(h map[string]string, ops []string) []string {
 				return "open=" + b01(e.c.IsOpen())
 			case "var":
 				// every read-side diagnostic: circuit and manager expvar, config copy, gauges
-				_ = e.c.Var().String()
 				_ = mgr.Var().String()
 				_ = e.c.Config()
 				_ = e.c.ConcurrentCommands() + e.c.ConcurrentFallbacks()
-				return "open=" + b01(e.c.IsOpen())
+				// ... and what the circuit's own expvar view SAYS: state, name, per-kind totals of the attached RunStats
+				var v struct {
+					IsOpen     bool                         `json:"is_open"`
+					Name       string                       `json:"name"`
+					RunMetrics []map[string]json.RawMessage `json:"run_metrics"`
+				}
+				if err := json.Unmarshal([]byte(e.c.Var().String()), &v); err != nil {
+					return "var-bad-json"
+				}
+				tot := "none"
+				for _, m := range v.RunMetrics {
+					if _, ok := m["Successes"]; !ok {
+						continue
+					}
+					ts := func(k string) int64 {
+						var c struct{ TotalSum int64 }
+						_ = json.Unmarshal(m[k], &c)
+						return c.TotalSum
+					}
+					tot = int64s(ts("Successes"), ts("ErrConcurrencyLimitRejects"), ts("ErrFailures"), ts("ErrShortCircuits"), ts("ErrTimeouts"), ts("ErrBadRequests"), ts("ErrInterrupts"))
+				}
+				return fmt.Sprintf("open=%s vopen=%s vname=%s vtot=%s", b01(e.c.IsOpen()), b01(v.IsOpen), v.Name, tot)
 			case "tick":
 				e.clk.now += atoi(f[1])
 				return "open=" + b01(e.c.IsOpen())
